@@ -298,6 +298,8 @@ def main(argv):
             break
 
   # 3-6 harness: implementation + oracle + cases
+  import logging
+  logging.disable(logging.CRITICAL)
   try:
     res = module.run(tier, seed)
   except Exception:  # pylint: disable=broad-except
